@@ -40,6 +40,7 @@ import NeoModel.Proofs.LedgerAdequate
 import NeoModel.Proofs.LedgerWhitelist
 import NeoModel.Proofs.LedgerProduct
 import NeoModel.Proofs.LedgerProductG
+import NeoModel.Proofs.LedgerMgmt
 import NeoModel.Generated.MapRanges
 import NeoModel.Generated.CacheWrites
 import NeoModel.Generated.CacheRestore
@@ -298,11 +299,52 @@ theorem designate_cache_coherent (steps : List (EComp.EStep Guarded.Env (Guarded
     (Guarded.gdesignate.erun n steps).cache = Guarded.gdesignate.init (Guarded.gdesignate.erun n steps).store :=
   EComp.ecache_coherent Guarded.gdesignate Guarded.gdesignate_exact steps n h
 
-/-- (C01, cache_coherent: ContractManagement contract records; the next contract id lives in storage only) -/
-theorem management_cache_coherent (steps : List (CStep MgmtOp)) (n : CNode MgmtStore (List (Nat × (Int × Nat))))
-    (h : n.cache = management.init n.store) :
-    (management.crun n steps).cache = management.init (management.crun n steps).store :=
-  cache_coherent management management_exact steps n h
+/-- (C01, cache_coherent: ContractManagement WITH the manifest) Storage holds the manifest as the stack item
+    Manifest.ToStackItem produces, the cache holds manifest OBJECTS: parsed from the transaction's JSON on a running
+    node, rebuilt by Manifest.FromStackItem from the stored item on a restarted one (InitializeCache) — different
+    values (nil vs empty slices, `features`, re-marshalled `extra`). After ANY history of deploy / update (with a new
+    manifest or NEF-only) / destroy / inter-contract calls, in halting or rolled-back transactions, and restarts:
+    every cached record has the stored id and update counter and its manifest object is well-formed and serialises
+    to EXACTLY the stored item. (`mgmt_init`, the restart case, is C16's round-trip theorem
+    FromStackItem (ToStackItem m) = normalize m.) -/
+theorem management_cache_coherent (P : Mgmt.Params) (hy : Mgmt.Hyp P) (steps : List (CStep Mgmt.MOp))
+    (n : CNode Mgmt.MStore Mgmt.MCache) (h : Mgmt.MgmtJ P n.store n.cache) :
+    Mgmt.MgmtJ P ((Mgmt.management P).crun n steps).store ((Mgmt.management P).crun n steps).cache :=
+  Mgmt.mgmt_crun_good P hy steps n h
+
+/-- (C01, what must not differ) Any two caches fitting the same storage — the running node's and the restarted
+    node's — decide every operation alike: the permission check of System.Contract.Call, the existence checks of
+    deploy / update / destroy, what a NEF-only update writes back; and getContract answers alike. -/
+theorem management_restart_same_decisions (P : Mgmt.Params) (s : Mgmt.MStore) (c₁ c₂ : Mgmt.MCache)
+    (j1 : Mgmt.MgmtJ P s c₁) (j2 : Mgmt.MgmtJ P s c₂) (o : Mgmt.MOp) :
+    (Mgmt.exec P s c₁ o).map (·.1) = (Mgmt.exec P s c₂ o).map (·.1) ∧ Mgmt.getContract P c₁ = Mgmt.getContract P c₂ :=
+  ⟨Mgmt.mgmt_blind P s c₁ c₂ o j1 j2, Mgmt.getContract_same P s c₁ c₂ j1 j2⟩
+
+/-- a manifest with one method `p` and the given permissions -/
+def exMan (perms : List Flags.MF.Perm) : Flags.MF.Man :=
+  { name := [0x6b], groups := some [], features := [0x7b, 0x20, 0x7d], standards := [],
+    methods := [⟨[0x70], 0, [], 0xff, false⟩], events := [], perms := perms, trusts := ⟨some [], false⟩, extra := [] }
+
+def exParams : Mgmt.Params := Mgmt.driverParams fun k => List.replicate 20 (UInt8.ofNat k)
+
+/-- the history of seeded change C01-m5: contract 1 may call any contract but NO method (`"methods": []`), contract 2
+    anything; the node restarts; 1 calls 2.p, 2 calls 1.p -/
+def exNode : CNode Mgmt.MStore Mgmt.MCache :=
+  (Mgmt.management exParams).crun { store := Mgmt.emptyStore, cache := Mgmt.init exParams Mgmt.emptyStore, height := 0 }
+    [.block [{ ops := [.deploy 1 (exMan [⟨.wildcard, some []⟩])], halts := true },
+             { ops := [.deploy 2 (exMan [⟨.wildcard, none⟩])], halts := true }], .restart]
+
+-- non-vacuity (the driver's parameters meet the hypotheses): after the restart the cached permission of contract 1
+-- is still "no method" — not the wildcard —, its `features` went from `{ }` to `{}` (the caches differ as values), the
+-- call 1 → 2.p is refused and 2 → 1.p allowed, exactly as before the restart
+example : ((exNode.cache 1).map (·.man.perms)) = some [⟨.wildcard, some []⟩] ∧
+    ((exNode.cache 1).map (·.man.features)) = some [0x7b, 0x7d] ∧
+    (Mgmt.management exParams).runBlockR exNode.store exNode.cache 2
+      [{ ops := [.call 1 2 [0x70]], halts := true }, { ops := [.call 2 1 [0x70]], halts := true }] = [false, true] := by
+  decide +kernel
+
+example : Mgmt.MgmtJ exParams exNode.store exNode.cache :=
+  management_cache_coherent exParams (Mgmt.driverParams_hyp _) _ _ (Mgmt.mgmt_empty_good _)
 
 /-- (C01∩C04, why the layer discipline matters) A setter writing the cache obtained with GetROCache survives the
     rollback of its transaction: cache says 5, storage has nothing. No such write exists in the code
@@ -350,10 +392,6 @@ example :
        .restart, .block e [{ ops := [⟨⟨8, [5]⟩, w⟩], halts := true }]]).cache
     = [(4, none), (8, some (3, [5])), (16, none), (32, none)] := by decide
 
-example : (management.crun { store := { contracts := [], nextId := 1 }, cache := [], height := 0 }
-    [.block [{ ops := [.deploy 7], halts := true }, { ops := [.deploy 9], halts := false }, { ops := [.deploy 9, .update 9], halts := true }],
-     .restart]).store = { contracts := [(9, (2, 1)), (7, (1, 0))], nextId := 3 } := by decide
-
 end Components
 
 namespace Natives
@@ -361,46 +399,48 @@ open Components
 
 /-- (C01 for ALL modelled natives, guards included) Policy fees + blocked list + NEO governance, the guarded
     settings of Policy / Notary / Oracle / NEO, the whitelisted fees, guarded RoleManagement, ContractManagement (contract
-    records, next id, guarded cache-less minimum deployment fee) and guarded NEO gasPerBlock side by side in one node, the guarded components checking committee witnesses against
+    records WITH manifests, next id, inter-contract permission checks, guarded cache-less minimum deployment fee) and guarded NEO gasPerBlock side by side in one node, the guarded components checking committee witnesses against
     the committee the NEO cache of THAT node holds at each block: any two schedules of
     addBlock/flush/restart/gc/poolTx with the same blocks give the same observation (storage of every component,
     per-transaction results incl. the predicted halt/fault of every guarded call, every cache's answers incl.
     GetGASPerBlock for every index), for every committee configuration, protocol configuration and initial contents
     of the remaining component storages. -/
-theorem all_natives_schedule_independent (cfg : Cfg) (holder : Acct) (mtb vubi mspb : Int)
-    (w0 : List (WKey × Int)) (r0 : RoleStore) (m0 : MgmtStore)
+theorem all_natives_schedule_independent (cfg : Cfg) (P : Mgmt.Params) (hy : Mgmt.Hyp P) (holder : Acct) (mtb vubi mspb : Int)
+    (w0 : List (WKey × Int)) (r0 : RoleStore)
     (σ₁ σ₂ : List (Step Unit GBlock Unit)) (hb : blocksOf σ₁ = blocksOf σ₂) :
-    observe (allSysG cfg) (run (allSysG cfg) (allGenesisNodeG cfg holder mtb vubi mspb w0 r0 m0) σ₁) =
-    observe (allSysG cfg) (run (allSysG cfg) (allGenesisNodeG cfg holder mtb vubi mspb w0 r0 m0) σ₂) := by
-  have hg := allGenesisG_good cfg holder mtb vubi mspb w0 r0 m0
-  have hs : stateView (allSysG cfg) (allGenesisNodeG cfg holder mtb vubi mspb w0 r0 m0).read =
-      (allGenesisNodeG cfg holder mtb vubi mspb w0 r0 m0).read := stateView_toSys _ _ _
-  have h0 : Sim (allSysG cfg) (UGood (AllGoodG cfg)) (allGenesisNodeG cfg holder mtb vubi mspb w0 r0 m0)
-      (allGenesisNodeG cfg holder mtb vubi mspb w0 r0 m0) :=
+    observe (allSysG cfg P) (run (allSysG cfg P) (allGenesisNodeG cfg P holder mtb vubi mspb w0 r0) σ₁) =
+    observe (allSysG cfg P) (run (allSysG cfg P) (allGenesisNodeG cfg P holder mtb vubi mspb w0 r0) σ₂) := by
+  have hg := allGenesisG_good cfg P holder mtb vubi mspb w0 r0
+  have hs : stateView (allSysG cfg P) (allGenesisNodeG cfg P holder mtb vubi mspb w0 r0).read =
+      (allGenesisNodeG cfg P holder mtb vubi mspb w0 r0).read := stateView_toSys _ _ _
+  have h0 : Sim (allSysG cfg P) (UGood (AllGoodG cfg P)) (allGenesisNodeG cfg P holder mtb vubi mspb w0 r0)
+      (allGenesisNodeG cfg P holder mtb vubi mspb w0 r0) :=
     ⟨rfl, rfl, rfl, by rw [hs]; exact hg, by rw [hs]; exact hg⟩
-  exact observe_independent_of_schedule (allSysG cfg) ((allUG_adequate cfg).toAdequate allDefaultG) _ _ h0 σ₁ σ₂ hb
+  exact observe_independent_of_schedule (allSysG cfg P) ((allUG_adequate cfg P hy).toAdequate allDefaultG) _ _ h0 σ₁ σ₂ hb
 
--- non-vacuity: a block with a passing and a failing guarded setter, a designation, a deployment and two
--- setGasPerBlock; a restart in the middle of one schedule only
+-- non-vacuity: a block with a passing and a failing guarded setter, a designation, two deployments (one with an
+-- empty permission method list) and a call between them, two setGasPerBlock; a restart in the middle of one schedule
 example :
     let w : Guarded.Witness := some (2, [0, 1])
     let blkA : GBlock :=
       ([], [{ ops := [⟨.attrFee 33 7, w⟩], halts := true }, { ops := [⟨.maxVUB 30, w⟩], halts := true }], [],
-       [{ ops := [⟨⟨8, [1]⟩, w⟩], halts := true }], [{ ops := [.deploy 5], halts := true }],
+       [{ ops := [⟨⟨8, [1]⟩, w⟩], halts := true }],
+       [{ ops := [.deploy 1 (Components.exMan [⟨.wildcard, some []⟩])], halts := true }, { ops := [.deploy 2 (Components.exMan [⟨.wildcard, none⟩])], halts := true },
+        { ops := [.call 1 2 [0x70]], halts := true }],
        [{ ops := [⟨7, w⟩], halts := true }, { ops := [⟨8, w⟩], halts := true }],
        [{ ops := [⟨3, w⟩], halts := true }, { ops := [⟨-3, w⟩], halts := true }])
-    observe (allSysG wCfg) (run (allSysG wCfg) (allGenesisNodeG wCfg wHolder 20 5 1000 [] [] { contracts := [], nextId := 1 })
+    observe (allSysG wCfg Components.exParams) (run (allSysG wCfg Components.exParams) (allGenesisNodeG wCfg Components.exParams wHolder 20 5 1000 [] [])
         [Step.addBlock blkA, Step.restart, Step.addBlock blkA, Step.flush]) =
-    observe (allSysG wCfg) (run (allSysG wCfg) (allGenesisNodeG wCfg wHolder 20 5 1000 [] [] { contracts := [], nextId := 1 })
+    observe (allSysG wCfg Components.exParams) (run (allSysG wCfg Components.exParams) (allGenesisNodeG wCfg Components.exParams wHolder 20 5 1000 [] [])
         [Step.addBlock blkA, Step.addBlock blkA]) :=
-  all_natives_schedule_independent wCfg wHolder 20 5 1000 _ _ _ _ _ (by rfl)
+  all_natives_schedule_independent wCfg Components.exParams (Mgmt.driverParams_hyp _) wHolder 20 5 1000 _ _ _ _ (by rfl)
 
 -- ... and the predicted outcomes are the expected ones: attrFee halts, maxVUB 30 ≥ mtb 20 faults
 example :
     let w : Guarded.Witness := some (2, [0, 1])
     let blkA : GBlock :=
       ([], [{ ops := [⟨.attrFee 33 7, w⟩], halts := true }, { ops := [⟨.maxVUB 30, w⟩], halts := true }], [], [], [], [], [])
-    (run (allSysG wCfg) (allGenesisNodeG wCfg wHolder 20 5 1000 [] [] { contracts := [], nextId := 1 })
+    (run (allSysG wCfg Components.exParams) (allGenesisNodeG wCfg Components.exParams wHolder 20 5 1000 [] [])
         [Step.addBlock blkA]).last.2.1 = [true, false] := by decide
 
 /-- (C01, why the dependent product is the right one) Wherever a transaction stands in a block, the committee its
